@@ -497,7 +497,7 @@ class Gen:
 
     def k_verbatim(self):
         self.w('\\begin{verbatim}')
-        self.w(self.rnd.choice(['\n', ' ', '']))
+        self.w(self.rnd.choice(['\n', ' ', '', '  \n', '\t\n', ' \n  ', '   \n\n']))
         self.path.append('verbatim')
         self.word()
         self.w(self.rnd.choice(['\n', ' ', '\n  ']))
